@@ -1988,7 +1988,7 @@ struct TemplateCore {
         while (offset < end_offset) {
             switch (content[offset]) {
                 case QOperationSymbol::OrExp: { // ||
-                    if (content[(offset + 1)] == QOperationSymbol::OrExp) {
+                    if (((offset + 1) < end_offset) && (content[(offset + 1)] == QOperationSymbol::OrExp)) {
                         return QOperation::Or;
                     }
 
@@ -1996,7 +1996,7 @@ struct TemplateCore {
                 }
 
                 case QOperationSymbol::AndExp: { // &&
-                    if (content[(offset + 1)] == QOperationSymbol::AndExp) {
+                    if (((offset + 1) < end_offset) && (content[(offset + 1)] == QOperationSymbol::AndExp)) {
                         return QOperation::And;
                     }
 
@@ -2004,7 +2004,7 @@ struct TemplateCore {
                 }
 
                 case QOperationSymbol::GreaterExp: { // > or >=
-                    if (content[(offset + 1)] == QOperationSymbol::EqualExp) {
+                    if (((offset + 1) < end_offset) && (content[(offset + 1)] == QOperationSymbol::EqualExp)) {
                         return QOperation::GreaterOrEqual;
                     }
 
@@ -2012,7 +2012,7 @@ struct TemplateCore {
                 }
 
                 case QOperationSymbol::LessExp: { // < or <=
-                    if (content[(offset + 1)] == QOperationSymbol::EqualExp) {
+                    if (((offset + 1) < end_offset) && (content[(offset + 1)] == QOperationSymbol::EqualExp)) {
                         return QOperation::LessOrEqual;
                     }
 
@@ -2020,7 +2020,7 @@ struct TemplateCore {
                 }
 
                 case QOperationSymbol::NotExp: { // !=
-                    if (content[(offset + 1)] == QOperationSymbol::EqualExp) {
+                    if (((offset + 1) < end_offset) && (content[(offset + 1)] == QOperationSymbol::EqualExp)) {
                         return QOperation::NotEqual;
                     }
 
@@ -2028,7 +2028,7 @@ struct TemplateCore {
                 }
 
                 case QOperationSymbol::EqualExp: { // ==
-                    if (content[(offset + 1)] == QOperationSymbol::EqualExp) {
+                    if (((offset + 1) < end_offset) && (content[(offset + 1)] == QOperationSymbol::EqualExp)) {
                         return QOperation::Equal;
                     }
 
